@@ -108,7 +108,11 @@ let run ~seed ~tier oc =
     let buf = Buffer.create 64 in
     for _ = 1 to parts do
       Buffer.add_string buf (pick r [| "{{ a }}"; "{{ b|upper }}"; "{% if a %}Y{% endif %}"; "{# c #}"; "{{ items|first }}"; "{{ a ~ b }}";
-                                       " lit "; "<p>"; "{% for i in items %}{{ i }}{% endfor %}"; "{{ d }}"; "\xc3\xa9"; "{ x }"; "{%- set q = a -%}"; "{{- a -}}" |])
+                                       " lit "; "<p>"; "{% for i in items %}{{ i }}{% endfor %}"; "{{ d }}"; "\xc3\xa9"; "{ x }"; "{%- set q = a -%}"; "{{- a -}}";
+                                       (* the closing and opening tags of other constructs, and of other template languages, are text here *)
+                                       "{% endraw %}{{ a }}"; "{% raw %}{{ b }}"; "{% endblock %}{{ a }}"; "{% endif %}"; "{% endfor %}{{ d }}"; "{% endmacro %}"; "{% else %}{{ a }}";
+                                       "{% verbatim %}"; "{% endverbatimx %}{{ a }}"; "{% end verbatim %}{{ b }}"; "{% extends a %}"; "{% include a %}"; "{% endapply %}{{ a }}";
+                                       "{% endspaceless %}"; "{% endautoescape %}{{ a }}"; "{% endcomment %}"; "{{ '{% endverbatim' }}" |])
     done;
     let body = "VB1" ^ Buffer.contents buf ^ "VB2" in
     let v = pick r [| "{% verbatim %}"; "{%- verbatim -%}"; "{% verbatim -%}" |] ^ body ^ pick r [| "{% endverbatim %}"; "{%- endverbatim %}"; "{% endverbatim -%}" |] in
@@ -120,7 +124,7 @@ let run ~seed ~tier oc =
       | 4 -> "{% macro m(a) %}{% if a %}" ^ v ^ "{% endif %}{% endmacro %}{{ _self.m('ARGVAL1') }}"
       | 5 -> "{% set a = 'CTXVAL9' %}" ^ v
       | _ -> "pre " ^ v ^ " post" in
-    emit oc (Ob [ "stream", JS "verbatim"; "src", JS (hex src); "lex", JS "n/a"; "body_marker", JS (hex "VB1") ])
+    emit oc (Ob [ "stream", JS "verbatim"; "src", JS (hex src); "lex", JS "n/a"; "body_marker", JS (hex "VB1"); "body_end", JS (hex "VB2") ])
   done;
   (* literal text that looks like tags (escaped openers with everything a tag has behind them, lone braces) inside the
      constructs a text can stand in -- a called macro above all: it is text there too; nothing in it is evaluated, so
